@@ -786,3 +786,167 @@ pub fn debug_run(seed: u64, mode: &str) {
 	}
 	world.cleanup();
 }
+
+// ------------------------------------------------------------------------------------------
+// cases
+
+fn cfg_json(cfg: &SyncCfg) -> Value {
+	serde_json::json!({"prop": cfg.prop, "pre": cfg.pre, "pibd_peer": cfg.pibd_peer, "faulty": cfg.faulty, "restarts": cfg.restarts,
+		"compact_server": cfg.compact_server, "fault_ticks": cfg.fault_ticks, "serve_height": cfg.serve_height})
+}
+
+fn cfg_from(v: &Value) -> SyncCfg {
+	SyncCfg {
+		prop: v["prop"].as_str().unwrap_or("C16").to_string(),
+		pre: v["pre"].as_array().map(|a| a.iter().filter_map(|x| x.as_u64().map(|n| n as usize)).collect()).unwrap_or_default(),
+		pibd_peer: v["pibd_peer"].as_bool().unwrap_or(true),
+		faulty: v["faulty"].as_bool().unwrap_or(false),
+		restarts: v["restarts"].as_u64().unwrap_or(0) as u32,
+		compact_server: v["compact_server"].as_bool().unwrap_or(false),
+		fault_ticks: v["fault_ticks"].as_u64().unwrap_or(0),
+		serve_height: v["serve_height"].as_u64().unwrap_or(0),
+	}
+}
+
+/// Fold one run into a case result. Returns true when the run reported a violation.
+pub fn fold(res: &mut crate::sim::CaseResult, out: SyncOutcome, cfg: &SyncCfg, run_seed: u64, world_replay: Value) -> bool {
+	res.runs += 1;
+	res.probe("syncloop_runs");
+	res.steps += out.ticks;
+	res.sim_time_s += out.sim_time_s;
+	for (k, v) in &out.probes {
+		res.probe_n(k, *v);
+	}
+	for (k, v) in &out.faults {
+		res.fault_n(&format!("sync:{}", k), *v);
+	}
+	for s in &out.states {
+		res.states.insert(*s);
+	}
+	res.run_digests.push((crate::rng::fnv64(out.log.join("\n").as_bytes()) ^ run_seed, cfg.faulty || !cfg.pre.is_empty()));
+	if let Some(mut v) = out.violation {
+		v.replay = serde_json::json!({"engine": "syncsim", "property": cfg.prop, "world": world_replay, "run_seed": run_seed, "cfg": cfg_json(cfg),
+			"log_tail": out.log.iter().rev().take(30).cloned().collect::<Vec<_>>()});
+		res.violations.push(v);
+		return true;
+	}
+	false
+}
+
+/// C16: the sync loop against the world of a pibdsim case (state sync through the real StateSync:
+/// PIBD with its request tracking, timeouts and peer exclusion, or - when the peer does not advertise
+/// PIBD - the archive after the loop's 660 s fall-back; then body sync to the tip).
+pub fn runs_for_c16(world: &World, res: &mut crate::sim::CaseResult, seed: u64, case: u64, long: bool, quiet: bool, thorough: bool) {
+	let rng = SimRng::new(seed);
+	let world_replay = serde_json::json!({"kind": "pibd", "case_seed": seed, "long": long, "fat": false, "quiet": quiet});
+	// (pibd peer?, faulty?, restarts)
+	let mut plan: Vec<(bool, bool, u32)> = if long { vec![(false, case % 2 == 0, 1)] } else if case % 2 == 0 { vec![(true, false, 0), (false, true, 1)] } else { vec![(true, true, 2), (false, false, 0)] };
+	if thorough && !long {
+		plan.push((true, true, 1));
+		plan.push((false, true, 2));
+	}
+	for (i, (pibd, faulty, restarts)) in plan.into_iter().enumerate() {
+		let mut rr = rng.fork(&format!("syncloop{}", i));
+		let cfg = SyncCfg {
+			prop: "C16".into(),
+			pre: vec![],
+			pibd_peer: pibd,
+			faulty,
+			restarts: if faulty { restarts } else { 0 },
+			compact_server: long,
+			fault_ticks: if faulty { rr.range(60, 220) } else { 0 },
+			serve_height: state_sync_height(world, pibd),
+		};
+		let rs = rr.next_u64();
+		let out = sync_loop_run(world, rs, &format!("sync16-c{}r{}", case, i), &cfg);
+		if fold(res, out, &cfg, rs, world_replay.clone()) {
+			break;
+		}
+	}
+}
+
+/// C03: a chainsim world (forks inside the horizon, real proof of work) reaches the node through its
+/// own sync loop. The receiver starts on a branch the serving chain outweighs, on a prefix of the
+/// serving chain, or empty.
+pub fn case_c03(tier: &str, seed: u64, case: u64) -> crate::sim::CaseResult {
+	let t0 = std::time::Instant::now();
+	let mut res = crate::sim::CaseResult::new(case, seed);
+	let mut world = match crate::checks::build_world_with("C03", tier, seed, crate::netsim::net_world_tweak) {
+		Ok(w) => w,
+		Err(e) => {
+			res.harness_error = Some(format!("world generation failed: {}", e));
+			return res;
+		}
+	};
+	res.extra.insert("syncloop_worlds".into(), serde_json::json!(1));
+	let world_replay = serde_json::json!({"kind": "chain", "property": "C03", "tier": tier, "case_seed": seed});
+	let winner = world.winner();
+	let wpath = world.path_to(winner);
+	let wh = world.blocks[winner].height;
+	let rng = SimRng::new(seed).fork("sync-c03");
+	// starting points: every losing leaf (its whole branch), then a prefix, then nothing
+	let mut starts: Vec<Vec<usize>> = vec![];
+	for leaf in world.leaves() {
+		if leaf != winner && leaf != 0 {
+			starts.push(world.path_to(leaf));
+		}
+	}
+	starts.truncate(if tier == "thorough" { 6 } else { 2 });
+	if wh > 14 {
+		starts.push(wpath.iter().cloned().take((wh - 12) as usize).collect());
+	}
+	starts.push(vec![]);
+	for (i, pre) in starts.into_iter().enumerate() {
+		let mut rr = rng.fork(&format!("run{}", i));
+		// where the receiver's chain leaves the serving chain
+		let fork_h = pre.iter().filter(|id| wpath.contains(id)).map(|id| world.blocks[*id].height).max().unwrap_or(0);
+		let body_only = fork_h + 20 >= wh;
+		if body_only {
+			res.probe("sync_start_inside_horizon");
+		} else {
+			res.probe("sync_start_below_horizon");
+		}
+		if pre.iter().any(|id| !wpath.contains(id)) {
+			res.probe("sync_start_on_lighter_branch");
+		}
+		let faulty = i % 2 == 0;
+		let pibd = rr.chance(1, 2);
+		let cfg = SyncCfg {
+			prop: "C03".into(),
+			pre,
+			pibd_peer: pibd,
+			faulty,
+			restarts: if faulty { rr.below(2) as u32 } else { 0 },
+			compact_server: false,
+			fault_ticks: if faulty { rr.range(40, 160) } else { 0 },
+			serve_height: if body_only { 0 } else { state_sync_height(&world, pibd) },
+		};
+		if !body_only && cfg.serve_height < 30 {
+			// too short for a state sync (the archive header would be genesis)
+			res.probe("sync_run_skipped_world_too_short");
+			continue;
+		}
+		let rs = rr.next_u64();
+		let out = sync_loop_run(&world, rs, &format!("sync03-c{}r{}", case, i), &cfg);
+		if fold(&mut res, out, &cfg, rs, world_replay.clone()) {
+			break;
+		}
+	}
+	world.cleanup();
+	res.wall_s = t0.elapsed().as_secs_f64();
+	res
+}
+
+pub fn replay(rp: &Value) -> Result<Option<Violation>, String> {
+	let w = &rp["world"];
+	let seed = w["case_seed"].as_u64().ok_or("case_seed")?;
+	let mut world = match w["kind"].as_str() {
+		Some("pibd") => crate::pibdsim::build_world(seed, w["long"].as_bool().unwrap_or(false), w["fat"].as_bool().unwrap_or(false), w["quiet"].as_bool().unwrap_or(false))?,
+		_ => crate::checks::build_world_with(w["property"].as_str().unwrap_or("C03"), w["tier"].as_str().unwrap_or("quick"), seed, crate::netsim::net_world_tweak)?,
+	};
+	let cfg = cfg_from(&rp["cfg"]);
+	let rs = rp["run_seed"].as_u64().ok_or("run_seed")?;
+	let out = sync_loop_run(&world, rs, "sync-replay", &cfg);
+	world.cleanup();
+	Ok(out.violation)
+}
